@@ -75,7 +75,7 @@ class Ctx:
     def violation(self, kind, detail, case):
         self.violations_total += 1
         self.count(f"violation.{kind}")
-        v = dict(kind=kind, detail=str(detail)[:4000], case=case)
+        v = dict(kind=kind, detail=str(detail)[:4000], case=case, tz=os.environ.get("TZ"))
         key = kind
         if self.classify:
             try:
@@ -162,6 +162,7 @@ def main():
     import warnings
     warnings.simplefilter("ignore")
     ctx = Ctx(a)
+    ctx.count("process_time_zone." + (os.environ.get("TZ") or "unset"))
     lines = {}
     try:
         assert_repo_under_test()
